@@ -9,6 +9,7 @@ import (
 	"encoding/base64"
 	"encoding/json"
 	"fmt"
+	"net/url"
 	"sort"
 	"strconv"
 	"strings"
@@ -305,7 +306,8 @@ func (w *World) scan(k *Know, fromLog int) []Taint {
 			return
 		}
 		for s, class := range k.secrets {
-			if strings.Contains(hay, s) {
+			// also in the spellings a URL carries it in: a logged request URL is as readable as the value
+			if strings.Contains(hay, s) || strings.Contains(hay, url.QueryEscape(s)) || strings.Contains(hay, url.PathEscape(s)) {
 				add(where, class)
 			}
 		}
